@@ -43,3 +43,14 @@ Example C01_example :
   let s := full_run r [1; 2; 3; 4; 5] ops [0;0;0;0;1;2;3;1;2;3;1;1;2;2;3;3;1;2;3;1;2;3;1;2;3] in
   all_doneb s = true /\ res_col (tpe [1; 2; 3; 4; 5] ops) [] (ws s) = [2; 4; 6].
 Proof. vm_compute. split; reflexivity. Qed.
+
+From OrxPar Require Import MachineIter MachineIterP MasterIter.
+
+(** the same over a by-value iterator source (ticket-ordered handle protocol) *)
+Theorem C01_collect_merge_iter : forall (V : Type) (src : list V) (ops : list (op V)) (r : Runner)
+  (ordered : bool) (sched : list nat),
+  runner_wf r -> iall_done (imrun r (tlen src ops) ordered (@nostop) sched) ->
+  res_col (tpe src ops) [] (map wk (iws (imrun r (tlen src ops) ordered (@nostop) sched)))
+  = seq_chain (stages_of ops) src.
+Proof. intros V src ops r ordered sched Hw Hd. apply iter_collect_merge; assumption. Qed.
+Print Assumptions C01_collect_merge_iter.
